@@ -215,10 +215,11 @@ class GaussianMixture:
         weights = np.sum(weighted_resp, axis=0)
         weights /= np.sum(weights)
 
-        # Update means
-        means = np.dot(weighted_resp.T, X) / (
-            np.sum(weighted_resp, axis=0)[:, np.newaxis] + 1e-10
-        )
+        # Update means: the weighted average of the data (a component that received
+        # no mass at all keeps a zero mean instead of dividing by zero)
+        mass = np.sum(weighted_resp, axis=0)
+        safe_mass = np.where(mass > 0, mass, 1.0)
+        means = np.dot(weighted_resp.T, X) / safe_mass[:, np.newaxis]
 
         # Update covariances
         covariances = self._compute_covariances(X, means, weighted_resp)
